@@ -7,6 +7,7 @@ import MdIt.Drv.Str
 import MdIt.Drv.Render
 import MdIt.Drv.Url
 import MdIt.Drv.Core
+import MdIt.Drv.Inline
 open MdIt
 
 def handle (line : String) : String :=
@@ -18,6 +19,8 @@ def handle (line : String) : String :=
   | "world" :: rest => Drv.worldLine rest
   | "dictrt" :: rest => Drv.dictrtLine rest
   | "tree" :: rest => Drv.treeLine rest
+  | "unescape" :: rest => Drv.unescapeLine rest
+  | "inline" :: rest => Drv.inlineLine rest
   | "textjoin" :: rest => Drv.textJoinLine rest
   | "smart" :: rest => Drv.smartLine rest
   | "encode" :: rest => Drv.urlLine "encode" rest
